@@ -7,31 +7,47 @@ impl VMLocalPinningBitSpec {
     /// Pin an object by setting the pinning bit to 1.
     /// Return true if the object is pinned in this operation.
     pub fn pin_object<VM: VMBinding>(&self, object: ObjectReference) -> bool {
-        let res = self.compare_exchange_metadata::<VM, u8>(
-            object,
-            0,
-            1,
-            None,
-            Ordering::SeqCst,
-            Ordering::SeqCst,
-        );
-
-        res.is_ok()
+        loop {
+            let res = self.compare_exchange_metadata::<VM, u8>(
+                object,
+                0,
+                1,
+                None,
+                Ordering::SeqCst,
+                Ordering::SeqCst,
+            );
+            if res.is_ok() {
+                return true;
+            }
+            // The compare-exchange of a 1-bit field operates on the whole byte and also fails
+            // when only a neighbouring field of that byte changed. Give up only if the pin bit
+            // itself no longer has the expected value.
+            if self.load_atomic::<VM, u8>(object, None, Ordering::SeqCst) != 0 {
+                return false;
+            }
+        }
     }
 
     /// Unpin an object by clearing the pinning bit to 0.
     /// Return true if the object is unpinned in this operation.
     pub fn unpin_object<VM: VMBinding>(&self, object: ObjectReference) -> bool {
-        let res = self.compare_exchange_metadata::<VM, u8>(
-            object,
-            1,
-            0,
-            None,
-            Ordering::SeqCst,
-            Ordering::SeqCst,
-        );
-
-        res.is_ok()
+        loop {
+            let res = self.compare_exchange_metadata::<VM, u8>(
+                object,
+                1,
+                0,
+                None,
+                Ordering::SeqCst,
+                Ordering::SeqCst,
+            );
+            if res.is_ok() {
+                return true;
+            }
+            // See pin_object: retry if only a neighbouring field of the byte changed.
+            if self.load_atomic::<VM, u8>(object, None, Ordering::SeqCst) != 1 {
+                return false;
+            }
+        }
     }
 
     /// Check if an object is pinned.
